@@ -1,6 +1,7 @@
 package main
 
 import (
+	"testing/fstest"
 	"bytes"
 	"context"
 	"fmt"
@@ -93,9 +94,85 @@ func c03Render(src string, data map[string]any) (string, error) {
 
 func init() { streams["C03"] = runC03 }
 
+// One engine, one chain whose conditions compare the loop variable with literals, over items of mixed Go
+// types: the same condition text meets int, int64, float64, uint8, string and nil values in one render and in
+// consecutive renders. Each item must get exactly the first branch whose comparison holds.
+func c03TypedChains(r *Run) {
+	rr := r.Rng
+	pool := []any{1, 2, 3, int64(1), int64(2), float64(1), float64(2), 2.5, uint8(1), uint8(2), int32(2), "1", "x", nil, true}
+	numOf := func(v any) (float64, bool) {
+		switch x := v.(type) {
+		case int:
+			return float64(x), true
+		case int64:
+			return float64(x), true
+		case int32:
+			return float64(x), true
+		case uint8:
+			return float64(x), true
+		case float64:
+			return x, true
+		}
+		return 0, false
+	}
+	tpl := `<div v-for="n in items"><p v-if="n == 1" data-m="1">one</p><p v-else-if="n == 2" data-m="2">two</p><p v-else data-m="3">other</p></div>` +
+		`<b v-if="status != 'active'" data-m="4">inactive</b><b v-else data-m="5">active</b>`
+	n := 60
+	if r.Thorough() {
+		n = 1500
+	}
+	for c := 0; c < n; c++ {
+		eng := vuego.New()
+		for round := 0; round < 3; round++ {
+			var items []any
+			var want []string
+			for i, k := 0, 1+rr.Intn(5); i < k; i++ {
+				v := Pick(rr, pool)
+				items = append(items, v)
+				f, isNum := numOf(v)
+				switch {
+				case isNum && f == 1:
+					want = append(want, "1")
+				case isNum && f == 2:
+					want = append(want, "2")
+				default:
+					want = append(want, "3")
+				}
+			}
+			data := map[string]any{"items": items}
+			switch rr.Intn(4) {
+			case 0:
+				data["status"] = "active"
+				want = append(want, "5")
+			case 1:
+				data["status"] = "off"
+				want = append(want, "4")
+			case 2:
+				data["status"] = nil
+				want = append(want, "4")
+			default:
+				want = append(want, "4") // missing
+			}
+			var buf bytes.Buffer
+			err := eng.New().Fill(data).RenderString(context.Background(), &buf, tpl)
+			var got []string
+			for _, m := range c03Mark.FindAllStringSubmatch(buf.String(), -1) {
+				got = append(got, m[1])
+			}
+			r.Eval(fmt.Sprintf("typed-chain:%d:%d", c, round), true, nil)
+			r.Count("stream:typed-chain(oracle only)")
+			if err != nil || strings.Join(got, ",") != strings.Join(want, ",") {
+				r.Fail("a chain comparing a loop variable of mixed types does not render the first branch whose comparison holds", map[string]string{"oracle": "typed-chain"},
+					map[string]any{"template": tpl, "items": fmt.Sprintf("%#v", items), "status": fmt.Sprintf("%#v", data["status"]), "round_on_same_engine": round, "expected_markers": want, "observed_markers": got, "err": fmt.Sprint(err)})
+			}
+		}
+	}
+}
+
 func runC03(r *Run) {
+	c03TypedChains(r)
 	r.Imports = []string{"Base.Val", "Model.Chain", "Model.Truthy"}
-	r.Rule("(chain) every sibling list up to length 4 (thorough 6) over {v-if, v-else-if, v-else, plain element, whitespace text, comment, element with v-for over no item, element with v-for over two items} x every truth assignment, each placed at top level, nested, inside v-for over 1 and 2 items or on <template v-for>, " +
+	r.Rule("(chain) every sibling list up to length 4 (thorough 6) over {v-if, v-else-if, v-else, plain element, whitespace text, comment, element with v-for over no item, element with v-for over two items} x every truth assignment, each placed at top level, nested, inside v-for over 1 and 2 items or on <template v-for>, as the whole content of an included component file (also included from a loop) and as supplied slot content, " +
 		"members on <p> or <template>, optionally carrying v-for over one item or a truthy v-show; observable: marker ids in document order. " +
 		"(truthy-fn) IsTruthy on one value of every kind and width, zero and non-zero. (positions) value kind x {v-if, !v in v-if, v-else-if, v-show, bound attribute, :class object, v-show on a v-if element}; " +
 		"non-trivial: chain with >= 2 members, or a numeric zero of a kind other than int, or a non-bool value")
@@ -166,10 +243,21 @@ func runC03(r *Run) {
 				sb.WriteString(n.Source())
 			}
 			body := sb.String()
-			placement := Pick(rr, []string{"top", "top", "nested", "for1", "for2", "tplfor2"})
+			placement := Pick(rr, []string{"top", "top", "nested", "for1", "for2", "tplfor2", "component", "slotcontent", "component-for2"})
 			repeat := 1
 			src := body
+			var files fstest.MapFS
 			switch placement {
+			case "component": // the siblings are the whole content of an included component file
+				files = fstest.MapFS{"comp.vuego": &fstest.MapFile{Data: []byte(body)}}
+				src = `<template include="comp.vuego"></template>`
+			case "component-for2":
+				files = fstest.MapFS{"comp.vuego": &fstest.MapFile{Data: []byte(body)}}
+				src = `<div v-for="r in two"><template include="comp.vuego"></template></div>`
+				repeat = 2
+			case "slotcontent": // ... or the content supplied for a component's slot
+				files = fstest.MapFS{"box.vuego": &fstest.MapFile{Data: []byte(`<section><slot></slot></section>`)}}
+				src = `<template include="box.vuego">` + body + `</template>`
 			case "nested":
 				src = "<div><section>" + body + "</section></div>"
 			case "for1":
@@ -181,7 +269,13 @@ func runC03(r *Run) {
 				src = `<template v-for="r in two">` + body + "</template>"
 				repeat = 2
 			}
-			out, err := c03Render(src, data)
+			var out string
+			var err error
+			if files != nil {
+				out, err = miniRender(files, src, data)
+			} else {
+				out, err = c03Render(src, data)
+			}
 			var ids []Obs
 			if err != nil {
 				ids = append(ids, A("error:"+err.Error()))
@@ -198,7 +292,11 @@ func runC03(r *Run) {
 			r.Count("placement:" + placement)
 			r.Count("members:" + deco)
 			coq := fmt.Sprintf("CChain %d %s", repeat, coqList(nodes, c03Node.Coq))
-			r.Case("chain", coq, L(ids...), map[string]any{"template": src, "data": fmt.Sprint(data)}, map[string]string{"placement": placement, "deco": deco}, members >= 2)
+			desc := map[string]any{"template": src, "data": fmt.Sprint(data)}
+			for name, f := range files {
+				desc[name] = string(f.Data)
+			}
+			r.Case("chain", coq, L(ids...), desc, map[string]string{"placement": placement, "deco": deco}, members >= 2)
 		}
 	}
 	rec = func(prefix []string) {
